@@ -20,5 +20,9 @@ MinOK == \A a \in Limbs : \A b \in Limbs : Val(WMin({a, b})) = (IF Val(a) <= Val
 SumOK == \A a \in Limbs : \A b \in Limbs :
            (Val(a) + Val(b) + 1 < B * B * B) => Val(WSum(<<a, b, WOf(1)>>)) = Val(a) + Val(b) + 1
 
-Inv == AddOK /\ HalfOK /\ LeqOK /\ OfOK /\ MinOK /\ SumOK
+ShlOK == \A a \in Limbs : \A sh \in 0..6 : Val(WShl(a, sh)) = (Val(a) * (2 ^ sh)) % (B * B * B)
+MulOK == \A a \in Limbs : \A m \in 0..2 : Val(WMulSmall(a, m)) = (Val(a) * m) % (B * B * B)
+SmallOK == \A x \in 0..(B * B - 1) : Val(WOfSmall(x)) = x
+
+Inv == ShlOK /\ MulOK /\ SmallOK /\ AddOK /\ HalfOK /\ LeqOK /\ OfOK /\ MinOK /\ SumOK
 ===============================================================================
